@@ -169,6 +169,13 @@ class FileUnderTest:
             n = len(ds)
             if len(ds[self.feat]) != n:
                 return []     # (inconsistent file: see observe())
+        import h5py
+        with h5py.File(self.path, "r") as h5:
+            if len({len(h5["events"][f]) for f in h5["events"]
+                    if isinstance(h5["events"][f], h5py.Dataset)}) != 1:
+                # (a feature replaced in a condensed file no longer fits the
+                # condensed features: joining such a file is not defined)
+                return []
         with RTDCWriter(ref, mode="reset") as hw:
             hw.store_metadata(m)
             hw.store_feature("area_um", np.arange(n, dtype=float) + 1)
